@@ -207,8 +207,14 @@ func ChildMain(sims map[string]SimFunc) bool {
 		}
 		// minimise in-process: the run is a pure function of the tape
 		n := 0
+		shrinkEnd := time.Now().Add(20 * time.Second)
+		expired := false
 		min := Shrink(c.Rec, func(v []uint32) bool {
 			n++
+			if expired || (n&7 == 0 && time.Now().After(shrinkEnd)) {
+				expired = true
+				return false
+			}
 			r := RunOne(f, ReplayTape(v), sp.Tier, false)
 			return r.Bug == "" && r.V != nil && r.V.Sig() == sig
 		}, sp.MaxShrink)
